@@ -17,6 +17,8 @@ def get_type_layout(
 ) -> Tuple[Optional[Dict[str, str]], Optional[Dict[str, str]], Dict[int, str]]:
     reserved = set()
     path_to_key = {}
+    # names given by the user: an inferred name must not coincide with any of them
+    user_keys = {arg.field_name or (None if entrypoints else arg.type_name) for _, arg in flat_args}
     for i, (bin_path, arg) in enumerate(flat_args):
         key = arg.field_name
         if key is None and not entrypoints:
@@ -26,7 +28,10 @@ def get_type_layout(
             path_to_key[bin_path] = key
         else:
             assert entrypoints is False, f'duplicate key {key}'
-            path_to_key[bin_path] = f'{arg.prim}_{i}'
+            key = f'{arg.prim}_{i}'
+            while key in user_keys:
+                key += '_'
+            path_to_key[bin_path] = key
 
     idx_to_path = dict(enumerate(path_to_key))
     if len(reserved) == 0 and infer_names is False and entrypoints is False:
